@@ -533,6 +533,43 @@ def run(ctx, scratch):
                 ctx.violation('Dirichlet.fit', 'values after %d iterations differ from the harmonic solution' % LIMIT_ITER,
                               case=args, expected=[float(x) for x in sol], observed=got, algo='dirichlet',
                               family=fam, oracle='harmonic_limit')
+        # the same caller-owned float64 array of temperatures given to two successive fits (convergence checks are written
+        # that way): the array must come back unchanged and the second fit must not depend on the first
+        n_same = 0
+        for _ in range(60 if quick else 600):
+            n, E, fam = gen.random_graph(rng, nmax, directed=False, nmin=3)
+            tri = []
+            for (i, j) in sorted(set((min(i, j), max(i, j)) for (i, j) in E if i != j)):
+                w = rng.randint(1, 5)
+                tri += [(i, j, w), (j, i, w)]
+            deg = {i for (i, j, w) in tri}
+            if len(deg) < n or n < 3:
+                continue
+            ks = rng.sample(range(n), rng.randint(1, n - 1))
+            vals = [-1.0] * n
+            for k in ks:
+                vals[k] = float(rng.choice([0, 0.25, 1, 2, 5]))
+            algo = rng.choice(['diffusion', 'dirichlet'])
+            args = dict(algo=algo, m={'shape': [n, n], 'coo': [[i, j, w] for (i, j, w) in tri], 'dtype': 'float', 'fmt': 'csr'},
+                        values=vals, n_iters=[rng.choice([1, 3]), rng.choice([10, 40])], damping=rng.choice([0.3, 0.85, 1]))
+            got = impl.call('c14', 'refit_same_array', args, timeout=60)
+            ctx.traces += 1
+            n_same += 1
+            ctx.count('same_array_twice:' + algo, ('same', args), True)
+            if 'ok' not in got:
+                ctx.violation(algo.capitalize() + '.fit', 'two fits given the same float array: raised', case=args, observed=got,
+                              algo=algo, family='same_array_twice', oracle='refit_same_array')
+                continue
+            g = got['ok']
+            if g['array_after'] != g['array_before']:
+                ctx.violation(algo.capitalize() + '.fit', 'the caller\'s array of temperatures was modified by fit', case=args,
+                              expected=g['array_before'], observed=g['array_after'], algo=algo, family='same_array_twice',
+                              oracle='argument_unchanged')
+            if not vec_close(g['reference'], g['second'], 1e-9):
+                ctx.violation(algo.capitalize() + '.fit', 'second fit given the same float array differs from the fit given a fresh copy',
+                              case=args, expected=g['reference'], observed=g['second'], algo=algo, family='same_array_twice',
+                              oracle='refit_same_array')
+    ctx.extra['c14_same_array_twice'] = n_same
     ctx.extra['c14'] = dict(model_cases=len(cases), seed_form_reruns=n_forms, rescaled_twins=n_scaled,
                             limit_cases=len(limit_cases), limit_cases_rescaled=n_limit_scaled,
                             limit_dropped_slow_mixing=dropped, limit_n_iter=LIMIT_ITER)
